@@ -1264,6 +1264,10 @@ htp_status_t htp_connp_RES_IDLE(htp_connp_t *connp) {
         }
 
         connp->in_state = htp_connp_REQ_FINALIZE;
+        // A request that was still being parsed is abandoned at this point. The
+        // data receiver it may have left behind refers to a request data chunk
+        // that is long gone and must not be flushed when this transaction is finalized.
+        connp->in_data_receiver_hook = NULL;
 #ifdef HTP_DEBUG
         fprintf(stderr, "picked up response w/o request");
 #endif
